@@ -544,7 +544,7 @@ pub fn op_open_flow(acc: &mut Acc, wd: &mut IncWorld, ui: usize, asset: &AssetRe
     let before = snap(&wd.app);
     let flows_pre = wd.flows();
     let bal_pre = all_balances(&wd.app, &wd.tokens);
-    let res = exec(&mut wd.app, &usr, &inc, &im::ExecuteMsg::OpenFlow { start_epoch: start, end_epoch: end, curve: None, flow_asset: asset.asset(amount), flow_label: None }, &funds);
+    let res = exec(&mut wd.app, &usr, &inc, &im::ExecuteMsg::OpenFlow { start_epoch: start, end_epoch: end, curve: None, flow_asset: asset.asset(amount), flow_label: match amount % 5 { 0 | 1 => Some("promo".to_string()), 2 => Some("boost".to_string()), _ => None } }, &funds);
     match res {
         Err(_) => {
             acc.count("open_flow.rejected");
@@ -636,16 +636,40 @@ pub fn op_expand_flow(acc: &mut Acc, wd: &mut IncWorld, ui: usize, flow: &im::Fl
 }
 
 pub fn op_close_flow(acc: &mut Acc, wd: &mut IncWorld, who: &Addr, role: &str, flow: &im::Flow) {
+    // labels are free text and not unique: half of the closes of a labelled flow name it by label, which resolves to the
+    // first flow carrying that label — possibly somebody else's; the caller's role is then judged against that flow
+    let by_label = flow.flow_label.is_some() && wd.ops.len() % 2 == 0;
+    let target: im::Flow = if by_label { wd.flows().into_iter().find(|f| f.flow_label == flow.flow_label).unwrap_or_else(|| flow.clone()) } else { flow.clone() };
+    let role: &str = if !by_label {
+        role
+    } else if *who == wd.core.owner {
+        "factory-owner"
+    } else if *who == target.flow_creator {
+        "creator"
+    } else {
+        "stranger"
+    };
+    if by_label {
+        acc.count("close_flow.by-label");
+        if target.flow_id != flow.flow_id {
+            acc.count("close_flow.by-label.resolves-to-another-flow");
+            if *who == flow.flow_creator && role == "stranger" {
+                acc.count("close_flow.by-label.caller-owns-a-later-flow-with-the-same-label");
+            }
+        }
+    }
+    let flow = &target;
+    let identifier = if by_label { im::FlowIdentifier::Label(flow.flow_label.clone().unwrap()) } else { im::FlowIdentifier::Id(flow.flow_id) };
     let inc = wd.incentive.clone();
     let asset = AssetRef::from_info(&flow.flow_asset.info);
     let expanded = !flow.asset_history.is_empty();
-    let what = format!("close_flow by {role} flow={} expanded={expanded}", flow.flow_id);
+    let what = format!("close_flow by {role} flow={} expanded={expanded} identified-by={}", flow.flow_id, if by_label { "label" } else { "id" });
     wd.log(what.clone());
     let bal_pre = all_balances(&wd.app, &wd.tokens);
     let before = snap(&wd.app);
     let funded = funded_of(flow);
     let due = funded.saturating_sub(flow.claimed_amount.u128());
-    let res = exec(&mut wd.app, who, &inc, &im::ExecuteMsg::CloseFlow { flow_identifier: im::FlowIdentifier::Id(flow.flow_id) }, &[]);
+    let res = exec(&mut wd.app, who, &inc, &im::ExecuteMsg::CloseFlow { flow_identifier: identifier }, &[]);
     let creator = flow.flow_creator.to_string();
     match res {
         Err(_) => {
@@ -816,6 +840,37 @@ pub fn run_history(acc: &mut Acc, r: &mut Rng, steps: u64, variant: u64) {
     let durs: Vec<u64> = (0..3).map(|_| gen_dur(r)).collect();
     let mut class = vec![variant % 8];
     let big = r.chance(1, 4);
+    // one history in six starts with a scripted interleaving that random steps rarely produce: an address without a
+    // position claims, a flow is opened later in that same epoch (next to an older flow of the same asset), the same
+    // address claims again one epoch later before any staker does, and a staker who has not claimed since before the
+    // flow existed collects many epochs in one call. The usual monitors judge every step.
+    if r.chance(1, 6) {
+        acc.count("prelude.claim-then-open-flow-in-one-epoch");
+        let asset = r.pick(&wd.rewards).clone();
+        let extra = if asset.id() == wd.fee_asset.id() { wd.fee_amount } else { 0 };
+        let next_epochs = |wd: &mut IncWorld, k: u64| {
+            advance(&mut wd.app, 10, k * DAY_NS);
+            let owner = wd.core.owner.clone();
+            catch_up_epochs(&mut wd.app, &wd.core, &owner);
+            let e = wd.epoch();
+            wd.log(format!("epoch -> {e}"));
+        };
+        let e = wd.epoch();
+        op_open_flow(acc, &mut wd, 0, &asset, 50_000 + extra, Some(e), Some(e + 40), 0);
+        op_position(acc, &mut wd, 1, false, r.range128(1_000, 1_000_000), durs[0].clamp(MIN_DUR, MAX_DUR), None, 0);
+        op_position(acc, &mut wd, 2, false, r.range128(1_000, 1_000_000), durs[0].clamp(MIN_DUR, MAX_DUR), None, 0);
+        next_epochs(&mut wd, 1);
+        op_claim(acc, &mut wd, 1);
+        next_epochs(&mut wd, r.range(1, 3));
+        op_claim(acc, &mut wd, 3);
+        let e = wd.epoch();
+        op_open_flow(acc, &mut wd, 2, &asset, 10_000 + extra, None, Some(e + r.range(3, 12)), 0);
+        next_epochs(&mut wd, 1);
+        op_claim(acc, &mut wd, 3);
+        next_epochs(&mut wd, r.range(8, 20));
+        op_claim(acc, &mut wd, 1);
+        op_claim(acc, &mut wd, 2);
+    }
     for _step in 0..steps {
         let ui = r.idx(4);
         let usr = wd.users[ui].clone();
